@@ -30,22 +30,27 @@ def _replay_chunk(args):
         for r in c["reqs"]:
             combos.setdefault(r["start"], []).append((c["segs"], r))
     rnd = random.Random(idx)
-    for start, items in combos.items():
-        for rootset in ("abs", "rel"):
-            if start == "static" and rootset == "rel":
-                continue
-            rig.configure(start if start != "static" else "base_abs", rootset)
-            for segs, r in items:
-                status, disclosed, raw = rig.request(r["route"], start, segs)
-                n += 1
-                obs = {"segs": segs, "route": r["route"], "start": start, "rootset": rootset, "variant": variant,
-                       "status": status, "disclosed": disclosed, "raw_status": raw,
-                       "path": rig.path_string(start, segs) if r["route"] != "get" else "/" + "/".join(segs)}
-                if sorted(r["disclosed"]) != disclosed:
-                    obs["expected_disclosed"] = sorted(r["disclosed"])
-                    diffs.append(obs)
-                elif rnd.random() < 0.02 or (disclosed and rnd.random() < 0.2):
-                    sample.append(obs)
+    # the configured root is re-pointed between passes (sql directory, the "outside" directory, the sql directory again):
+    # the same spellings are asked under each root by the same application object
+    for which in ("ROOT", "OUT", "ROOT"):
+        for start, items in combos.items():
+            for rootset in ("abs", "rel"):
+                if start in ("static", "abs") and (rootset == "rel" or which == "OUT"):
+                    continue
+                rig.configure(start if start not in ("static", "abs") else "base_abs", rootset, which)
+                for segs, r in items:
+                    if r["root"] not in (which, "STATIC"):
+                        continue
+                    status, disclosed, raw = rig.request(r["route"], start, segs)
+                    n += 1
+                    obs = {"segs": segs, "route": r["route"], "start": start, "root": r["root"], "rootset": rootset, "variant": variant,
+                           "status": status, "disclosed": disclosed, "raw_status": raw,
+                           "path": rig.path_string(start, segs) if r["route"] != "get" else ("//<base>/" if start == "abs" else "/") + "/".join(segs)}
+                    if sorted(r["disclosed"]) != disclosed:
+                        obs["expected_disclosed"] = sorted(r["disclosed"])
+                        diffs.append(obs)
+                    elif rnd.random() < 0.01 or (disclosed and rnd.random() < 0.1):
+                        sample.append(obs)
     os.chdir("/")
     import shutil
     shutil.rmtree(os.path.join(scratch, "p%d_%s" % (idx, variant)), ignore_errors=True)
@@ -64,7 +69,7 @@ def run(chk):
     if r.violated:
         raise core.MachineryError("Server.tla intended mechanism violates %s" % r.violated)
     chk.require_actions(["Walk"]) if chk.cov["actions"] else None
-    for dev in ["D_PREFIX_ON_UNNORMALISED", "D_DIRECTORY_LISTS_PARENT_OF_F", "D_GET_NO_DOTDOT_CHECK"]:
+    for dev in ["D_PREFIX_ON_UNNORMALISED", "D_DIRECTORY_LISTS_PARENT_OF_F", "D_GET_NO_DOTDOT_CHECK", "D_GET_KEEPS_ABSOLUTE", "D_GATE_IGNORES_ROOT_CHANGE"]:
         r = chk.tlc("Server", cfg(chk, "dev_" + dev, 3, known=[dev]), "expected-fail " + dev, workers=4,
                     expect_violation=True, coverage=False)
         chk.self_test("spec finds " + dev, bool(r.violated), ",".join(r.violated))
@@ -107,7 +112,7 @@ def run(chk):
     for c in cases:
         if any(s in ("..", "sqlroot_sib", "outside", "static", "") for s in c["segs"]):
             for q in c["reqs"]:
-                nt.add((tuple(c["segs"]), q["route"], q["start"]))
+                nt.add((tuple(c["segs"]), q["route"], q["start"], q["root"]))
     chk.cov["distinct_nontrivial"] = len(nt)
     chk.cov["requests"] = total
     chk.sample({"request": sample[0]} if sample else {})
